@@ -128,9 +128,12 @@ func c10N(tier string) (enum, rnd int) {
 }
 
 func c10Run(tier string, seed uint64, i int) []h.Result {
-	enum, _ := c10N(tier)
+	enum, rnd := c10N(tier)
 	var src, key string
-	if i < enum {
+	if i >= enum+rnd {
+		src = gen.FlowTemplates()[i-enum-rnd]
+		key = fmt.Sprintf("template body %d", i-enum-rnd)
+	} else if i < enum {
 		idx := uint64(i)
 		if tier != "thorough" {
 			idx = h.Mix(seed, 10, uint64(i)) % (16 * 16 * 16 * 16 * 16 * 16)
@@ -251,12 +254,12 @@ func init() {
 		Rule: "function bodies over nested if/else-if/else, for (no condition, condition, range-over-int, 3-clause without condition, range), switch (tagged/tagless, default first/last/absent, fallthrough), type switch (with/without binding), select (recv/send/default/empty), " +
 			"blocks, labeled statements (loops, switches, selects, blocks, simple statements; deliberately duplicated names), break/continue/goto with and without labels to every enclosing level, panic (builtin, or shadowed by a package function, a parameter, or a local), " +
 			"empty statements, closures with their own label namespace and result list. Bodies come from (a) systematic enumeration of the generator's choice sequences (thorough: every choice prefix of length 5 in radix 16 = 1 048 576 indices; quick: seed-sampled indices) " +
-			"and (b) random bodies to nesting depth 8. The multiset of {missing return, label defined and not used, label already defined} delivered to HandleErr must equal go/types' on the same source. non-trivial = body compared; distinct by body text",
+			"(b) random bodies to nesting depth 8 and (c) a deterministic catalogue, complete in both tiers: 9 outer statements (labeled / unlabeled for, switch, type switch, select, block as the function's last statement) x 10 nested statements x 8 jumps (break, break L, continue, continue L, goto L, return, panic, none) x 4 further uses of the label. The multiset of {missing return, label defined and not used, label already defined} delivered to HandleErr must equal go/types' on the same source. non-trivial = body compared; distinct by body text",
 		Assume: []string{"go/types implements the terminating-statement and label rules of the Go specification", "bodies contain no other error source (those that do are skipped)"},
 		MinNT:  200,
 		Plan: func(tier string, seed uint64) int {
 			a, b := c10N(tier)
-			return a + b
+			return a + b + len(gen.FlowTemplates())
 		},
 		Run: c10Run,
 	})
